@@ -31,6 +31,7 @@ import IcyVerif.Drv.Term
 import IcyVerif.Drv.TextLoad
 import IcyVerif.Drv.Undo
 import IcyVerif.Drv.Uni
+import IcyVerif.Drv.UniMacro
 import IcyVerif.Drv.XbCompress
 open IcyVerif.Drv
 
@@ -69,6 +70,7 @@ def dispatch (line : String) : String :=
   | "textload" :: rest => TextLoad.handle rest
   | "undo" :: rest => Undo.handle rest
   | "uni" :: rest => Uni.handle rest
+  | "unimacro" :: rest => UniMacro.handle rest
   | "xbcompress" :: rest => XbCompress.handle rest
   | _ => "bad-op"
 
